@@ -59,7 +59,15 @@ def model_outputs(ctx, records, driver="Ident"):
     for f in flagrecs:
         if "error" in f:
             raise RuntimeError(f"declaration flags of a library cannot be read: {f['error']}")
-    outs = common.run_driver(driver, lines + [f["line"] for f in flagrecs])
+    # the class tables of the libraries first (`lib` lines, one per library): graph lines then name (class, parameter) and
+    # the model resolves the declaration in force itself
+    libs, seen = [], set()
+    for r in records if driver == "Ident" else []:
+        t = r.get("classtable")
+        if t and t["key"] not in seen:
+            seen.add(t["key"])
+            libs.append(t)
+    outs = common.run_driver(driver, libs + lines + [f["line"] for f in flagrecs])[len(libs):]
     res, i = [], 0
     for r in records:
         res.append(outs[i:i + len(r["lines"])])
